@@ -60,18 +60,18 @@ def _proc_root():
     return r
 
 
-RARGS = {"a_A": "A", "a_B": "B"}
+RARGS = {"a_A": "A", "a_B": "B", "b_A": "A", "b_B": "B"}
 
 
 def content(u, v):
     # (each version of a file has its own page signature, see C14)
     if v == "X":
         return "${"
-    return "<%%page args=\"a_%s='none'\"/>%s|%s|${1+1}|${a_%s}" % (v, u, v, v)
+    return "<%%page args=\"a_%s='none'\"/><%%def name=\"f(b_%s='none')\">f|${b_%s}</%%def>%s|%s|${1+1}|${a_%s}" % (v, v, v, u, v, v)
 
 
 def marker(u, v):
-    return "%s|%s|2|%s" % (u, v, v)
+    return "%s|%s|2|%s#f|%s" % (u, v, v, v)
 
 
 class World:
@@ -156,7 +156,7 @@ def _ydict(s, old, size, mutil):
 
 def _render(t):
     try:
-        return t.render(**RARGS)
+        return t.render(**RARGS) + "#" + t.get_def("f").render(**RARGS)
     except BaseException as e:  # noqa
         return "EXC:%s" % type(e).__name__
 
